@@ -162,4 +162,38 @@ theorem scoped_set_rm (d : Doc) (p rest k : Text) (v : Node)
   rw [key]
   by_cases hb : d.tBefore = [] <;> simp [h1, h2, h3, h4, h5, h6, hb]
 
+
+theorem dropWhile_eq_nil_of_all {α} (p : α → Bool) : ∀ (l : List α), (∀ x ∈ l, p x = true) → l.dropWhile p = []
+  | [], _ => rfl
+  | a :: as, h => by
+    rw [List.dropWhile_cons, if_pos (h a (by simp))]
+    exact dropWhile_eq_nil_of_all p as (fun x hx => h x (by simp [hx]))
+
+/-- `trailing` made of layout tokens only (the usual "file ends with a newline") is restored -/
+theorem restoredTrailing_layout (t : Payload) (h : ∀ x ∈ t, x = 0 ∨ x = 1) : restoredTrailing t [] = t := by
+  have hd : List.dropWhile (fun t => t == 0 || t == 1) t.reverse = [] := by
+    apply dropWhile_eq_nil_of_all
+    intro x hx
+    rcases h x (List.mem_reverse.1 hx) with rfl | rfl <;> rfl
+  cases t with
+  | nil => rfl
+  | cons a as =>
+    simp only [restoredTrailing, stripLayoutTail, hd]
+    simp
+
+/-- so is a `trailing` that does not end in a layout token (or is empty) -/
+theorem restoredTrailing_no_layout_tail (t : Payload)
+    (h : ∀ x, t.getLast? = some x → x ≠ 0 ∧ x ≠ 1) : restoredTrailing t [] = t := by
+  have hd : List.dropWhile (fun t => t == 0 || t == 1) t.reverse = t.reverse := by
+    cases hr : t.reverse with
+    | nil => rfl
+    | cons a as =>
+      have : t.getLast? = some a := by
+        rw [List.getLast?_eq_head?_reverse, hr]; rfl
+      obtain ⟨h0, h1⟩ := h a this
+      rw [List.dropWhile_cons]
+      simp [h0, h1]
+  simp only [restoredTrailing, stripLayoutTail, hd]
+  simp
+
 end Nima
